@@ -99,7 +99,12 @@ theorem rename_spec {m m' : MFS} (s : Side) {ko kn : Key} {r : Except Err Unit} 
   rw [hresn, hreso] at h <;> simp only at h
   · -- found, found
     cases nn
-    case dir mt => simp only at h; cases h; exact hsame
+    case dir mt =>
+      simp only at h
+      have hc : ¬ (osRoot bk kk s ++ ko = osRoot bk kk s ++ kn ∧
+          kp (osRoot bk kk s ++ ko) ≠ kp (osRoot bk kk s ++ kn)) := fun hc => hc.2 (congrArg kp hc.1)
+      rw [if_neg hc] at h
+      simp only at h; cases h; exact hsame
     all_goals
       simp only at h
       split at h
